@@ -531,7 +531,7 @@ func genRead(t *rapid.T) ReadCase {
 	// the 24-bit length field in the read direction: one case in N ends with a message of up to 2^24-1 bytes in a
 	// conforming chunking (after a Set Chunk Size that keeps the chunk count sane), interleaved with a short message on
 	// another chunk stream; header format 0 or - when the chunk stream has history - 1
-	if n := hugeOneIn() / 4; rapid.IntRange(0, n-1).Draw(t, "hugeRead") == n/2 { // mid-range value: rapid favours the bounds
+	if n := hugeOneIn(); rapid.IntRange(0, n-1).Draw(t, "hugeRead") == n/2 { // mid-range value: rapid favours the bounds
 		if cs < 128 {
 			ns := rapid.SampledFrom([]int{128, 4096, 60000, 65536}).Draw(t, "hugeChunkSize")
 			c.Groups = append(c.Groups, Group{Steps: []Step{{Kind: "scs", NewSize: ns, M: M{Csid: 2, Type: rtmpref.TypeSetChunkSize, Len: 4}}}})
